@@ -122,11 +122,15 @@ structure Item where
   /-- decoded target string the matcher sees -/
   target : Str
   pc : PC
+  /-- ghost: the rule sets the gate verdict of this item was computed from -/
+  decided : Option (List RuleSet) := none
   deriving Repr
 
 inductive Req
   | robots (o : Origin) (by_ : ItemId)
   | page (i : ItemId) (o : Origin)
+  /-- ghost: the pool obtained (loaded) the robots.txt of `o` -/
+  | loaded (o : Origin)
   deriving DecidableEq, Repr
 
 structure St where
@@ -152,8 +156,10 @@ inductive Ev
   deriving Repr
 
 def getItem (l : List Item) (i : ItemId) : Option Item := l.find? (·.id == i)
-def setPC (l : List Item) (i : ItemId) (pc : PC) : List Item :=
-  l.map fun it => if it.id == i then { it with pc := pc } else it
+def setPC (l : List Item) (i : ItemId) (pc : PC) (d : Option (List RuleSet) := none) : List Item :=
+  l.map fun it => if it.id == i then { it with pc := pc, decided := if d.isSome then d else it.decided } else it
+
+def verdictPC (rs : List RuleSet) (ua target : Str) : PC := if isAllowed rs ua target then .allowed else .denied
 
 /-- one step of the gate for user agent `ua`; `none` = not enabled -/
 def step (ua : Str) (s : St) : Ev → Option St
@@ -162,7 +168,7 @@ def step (ua : Str) (s : St) : Ev → Option St
     | some it =>
       if it.pc != .idle then none else
       match poolGet s.pool it.origin with
-      | some rs => some { s with items := setPC s.items i (if isAllowed rs ua it.target then .allowed else .denied) }
+      | some rs => some { s with items := setPC s.items i (verdictPC rs ua it.target) (some rs) }
       | none => some { s with items := setPC s.items i .waiting, log := s.log ++ [.robots it.origin i] }
     | none => none
   | .answer i a =>
@@ -172,8 +178,10 @@ def step (ua : Str) (s : St) : Ev → Option St
       match a with
       | .rules rs =>
         some { s with pool := poolPut s.pool it.origin rs,
-                      items := setPC s.items i (if isAllowed rs ua it.target then .allowed else .denied) }
-      | .blank => some { s with pool := poolPut s.pool it.origin [], items := setPC s.items i .allowed }
+                      items := setPC s.items i (verdictPC rs ua it.target) (some rs),
+                      log := s.log ++ [.loaded it.origin] }
+      | .blank => some { s with pool := poolPut s.pool it.origin [], items := setPC s.items i .allowed (some []),
+                                log := s.log ++ [.loaded it.origin] }
       | .serverError => some { s with items := setPC s.items i .postponed }
       | .netError => some { s with items := setPC s.items i .postponed }
     | none => none
